@@ -35,6 +35,10 @@ clean_repo()
 for kind,what,props in jobs:
     if kind=='revert':
         r=sh(f'git show {what} | git apply -R','/repo')
+        if r.returncode!=0 and os.path.exists(f'{V}/mutants/revert-{what}.diff'):
+            # a later fix touched the same hunks: use the hand-made equivalent of the revert
+            sh('git reset -q --hard HEAD','/repo')
+            r=sh(f'git apply {V}/mutants/revert-{what}.diff','/repo')
         label=f'revert-{what}'
     else:
         r=sh(f'git apply {what}/patch.diff','/repo')
